@@ -353,6 +353,10 @@ def handle (j : Json) : Except String Json := do
       let (nk2, nk1) := shapeK kept
       pure (Json.mkObj [("order", natsJson (ordered.map (·.id))), ("n_k2", Json.num (JsonNumber.fromNat nk2)), ("n_k1", Json.num (JsonNumber.fromNat nk1)),
                         ("ignore_mask", Json.num (JsonNumber.fromNat ignoreMask))])
+  | "rpe_krad" =>
+      let shifts ← getRats j "shifts"; let c ← getInt j "center"
+      let k1 ← getNats j "k1"; let k2 ← getNats j "k2"
+      pure (Json.mkObj [("krad", ratsJson ((k1.zip k2).map (fun p => rpeKrad shifts c p.1 p.2)))])
   | "kfreq" =>
       let n ← getNat j "n"; let c ← getInt j "center"; let rev ← getBool j "reversed"
       pure (Json.mkObj [("k", intsJson ((List.range n).map (kfreq n c rev)))])
